@@ -25,6 +25,12 @@ func verifSub(site string, s *Subscription) {
 		}
 		site = "populate.deleted"
 	}
+	if site == "dispose" {
+		if s.state == stateDisposed || (len(s.readyCallbacks) == 0 && len(s.accessCallbacks) == 0) {
+			return
+		}
+		site = "sub.disposePending"
+	}
 	verifhook.AddNote(site, s.c.CID()+" "+s.rid)
 }
 
